@@ -1,5 +1,6 @@
 import Tau.Mapping
 import Tau.Solver
+import Tau.Proofs.Batch
 /-
   C07 — String predicates are exact for all strings, single or batched.
 -/
@@ -150,5 +151,110 @@ theorem literal_shapes (w : Str) (hw : ∀ c ∈ w, c ≠ '*' ∧ c ≠ '"' ∧ 
   · simp only [List.cons_append]
     simp [literalPattern, hstar2, foldIf, hdrop2]
   · simp [literalPattern, hc.1, hc.2.1, hc.2.2, hl1, hl2, hl3, foldIf]
+
+end Tau.C07
+
+namespace Tau.C07
+open Tau
+
+/-! ### Batching is invisible (second sentence of the property) -/
+
+/-- A case-sensitive automaton, at the level of the three-valued solver (missing field, scalar,
+    array, wrong kind): the `or` of its members as single searches. -/
+theorem automaton_is_or_of_members (E : RegexEngine) (d : Doc) (ctx : List MatchType) (hne : ctx ≠ [])
+    (f : Str) (c : Bool) :
+    solveSearch E d (.ac ctx false) f c =
+      Tri.or (ctx.map (fun mt => solveSearch E d (searchOfMatchType mt) f c)) := ac_or E d ctx hne f c
+
+theorem iautomaton_is_or_of_members (E : RegexEngine) (d : Doc) (ctx : List MatchType) (hne : ctx ≠ [])
+    (f : Str) (c : Bool) :
+    solveSearch E d (.ac ctx true) f c =
+      Tri.or (ctx.map (fun mt => solveSearch E d (.ac [mt] true) f c)) := iac_or E d ctx hne f c
+
+theorem regex_set_is_or_of_members (E : RegexEngine) (d : Doc) (ps : List Str) (ci : Bool) (hne : ps ≠ [])
+    (f : Str) (c : Bool) :
+    solveSearch E d (.regexSet ps ci) f c =
+      Tri.or (ps.map (fun p => solveSearch E d (.regex p ci) f c)) := set_or E d ps ci hne f c
+
+/-- However the sequence branch of `parse_mapping` batches what the member loop collected
+    (automaton per case flag, regex set per case flag, lone members unbatched), the resulting group
+    has the value of the members evaluated one by one. -/
+theorem batching_invisible (E : RegexEngine) (K : IdentK) (d : Doc) (st : SeqSt) (hwf : st.WF) (f : Str) :
+    V E K d (batchMembers st f).1 = V E K d (unbatched st f) := batch_or E K d st hwf f
+
+theorem shapeGroup_plain_value (E : RegexEngine) (K : IdentK) (d : Doc) (f : Str) (g : Expr) (gs : List Expr)
+    (m : Bool) : solveG E K d (shapeGroup (.field f) g gs m) = V E K d (g :: gs) := by
+  unfold shapeGroup V
+  simp only []
+  split
+  · rename_i h
+    have : gs = [] := by
+      cases gs with
+      | nil => rfl
+      | cons _ _ => simp at h
+    subst this
+    simp only [List.map_cons, List.map_nil]
+    cases solveG E K d g <;> rfl
+  · simp only [solveG, orG_eq, listG_eq_map]
+
+/-- **A list of patterns on one field matches exactly when at least one member would match on
+    its own** — as a three-valued result, for every list (strings of every pattern kind and case
+    flag, numbers, booleans, null, nested mappings), every document and field value: the value of
+    `f: [v1, .., vn]` is the `or` of the values of `f: [vi]`. -/
+theorem list_is_or_of_members (E : RegexEngine) (ic : Bool) (f : Str) (s : List Yaml) (x : Expr)
+    (h : parseVal E ic (.field f) f none (.seq s) = .ok x) (K : IdentK) (d : Doc) :
+    solveG E K d x =
+      Tri.or (s.map (fun v => V E K d (memberAlone E ic f none (.field f) v))) := by
+  simp only [parseVal] at h
+  split at h
+  · cases h
+  · rename_i st hst
+    have hwf : st.WF := parseMembers_wf E ic f none (.field f) s _ st hst (wf_empty _)
+    unfold shapeSeq at h
+    split at h
+    · cases h
+    · split at h
+      · cases h
+      · rename_i g gs hg
+        cases h
+        have hv : solveG E K d (wrapNot none (shapeGroup (.field f) g gs (batchMembers st f).2)) =
+            V E K d (g :: gs) := by
+          simp only [wrapNot]
+          exact shapeGroup_plain_value E K d f g gs _
+        rw [hv, ← hg, batch_or E K d st hwf f]
+        exact members_or E K d ic f none (.field f) s st hst
+
+/-- … and `f: [v]` is what `f: v` means: a member taken alone is the entry the scalar branch of
+    `parse_mapping` builds for it. -/
+theorem member_alone_is_entry (E : RegexEngine) (ic : Bool) (f : Str) (v : Yaml) (y : Expr)
+    (hv : v.isSeq = false) (h : parseVal E ic (.field f) f none v = .ok y) :
+    memberAlone E ic f none (.field f) v = [y] := by
+  cases v with
+  | seq xs => simp [Yaml.isSeq] at hv
+  | tagged => simp [parseVal] at h
+  | null => simp [parseVal, wrapNot] at h; subst h; rfl
+  | bool b => simp [parseVal, wrapNot] at h; subst h; rfl
+  | num n =>
+    cases n <;> simp [parseVal, wrapNot] at h <;> subst h <;> rfl
+  | map m =>
+    simp only [parseVal] at h
+    simp only [memberAlone, memberDelta]
+    split at h
+    · cases h
+    · rename_i hm
+      simp only [hm, Bool.false_eq_true, if_false]
+      cases hfm : finishMapping (parseEntries E ic m) with
+      | error e => rw [hfm] at h; cases h
+      | ok z => rw [hfm] at h; simp [wrapNot] at h; subst h; rfl
+  | str s =>
+    simp only [parseVal] at h
+    simp only [memberAlone, memberDelta]
+    cases hid : intoIdentifier E ic s with
+    | error e => rw [hid] at h; cases h
+    | ok ident =>
+      rw [hid] at h
+      simp only [castCheck] at h ⊢
+      cases hp : ident.pat <;> simp only [hp, numExpr, searchOfPattern, wrapNot] at h ⊢ <;>
+        (try cases h) <;> simp [unbatched, unbatchOne, hp, searchOfPattern]
 
 end Tau.C07
